@@ -58,7 +58,10 @@ func zzStubNewReader(rd io.Reader) *bufio.Reader { return new(bufio.Reader) }
 
 func zzStubReadHeaderInfo(r *bufio.Reader) (*headers.HeaderInfo, error) { return zzHdr, nil }
 
+var zzLoadedModel string
+
 func zzStubLoadMotionConfig(c *Config, model string) error {
+	zzLoadedModel = model
 	c.Motion = goconfig.ThermalMotion{TempThresh: 2900, DeltaThresh: 50, CountThresh: 3, FrameCompareGap: 2, TriggerFrames: zzTrig, UseOneDiffOnly: true}
 	return nil
 }
@@ -379,6 +382,21 @@ func ZZ_CONN() {
 	zzAssert(h.Brand == "flir" && h.Model == model && h.CameraSerial == 4242 && h.Firmware == "1.2.3", "C11: header carries camera brand, model, serial and firmware")
 	zzAssert(h.Latitude == 1.5 && h.Longitude == 2.5 && h.Altitude == 3.5 && h.Accuracy == 4.5, "C11: header carries the location")
 	zzAssert(fileRec.outputDir == conf.OutputDir && fileRec.minDiskSpace == 1, "C11: output directory and min disk space from configuration")
+	zzAssert(zzLoadedModel == model, "C11: camera-model motion defaults are loaded for the connected model")
+
+	// ---- a second connection from another camera model on the same process
+	model2 := zzModelName((zzParam("MODEL") + 1) % 3)
+	zzLen, zzPos, zzItems, zzFrag = 0, 0, 0, 0
+	zzLoadedModel = ""
+	if zzSymbolic() {
+		zzSetFieldStr(zzHdr, "model", model2)
+	} else {
+		hdr := fmt.Sprintf("ResX: 2\nResY: 2\nFPS: %d\nFrameSize: %d\nBrand: flir\nModel: %s\nCameraSerial: 4242\nFirmware: 1.2.3\n\n", fps, zzFrameSize, model2)
+		conn = &zzConn{data: []byte(hdr), seg: 3}
+	}
+	handleConn(conn, conf)
+	zzReach("second connection")
+	zzAssert(zzLoadedModel == model2, "C11: on reconnect the motion defaults follow the new camera model")
 }
 
 func zzOutDir() string {
